@@ -10,13 +10,16 @@
 (***************************************************************************)
 EXTENDS Integers, Sequences, FiniteSets, TLC
 Domain == [ nonce    |-> {"same", "+1", "-1", "earlier"},      \* earlier: the KDC's reply to a previous request, replayed
-            cname    |-> {"same", "differs"},
+            cname    |-> {"same", "differs", "regrouped"},       \* regrouped: another name that prints alike (components a, b sent as one component "a/b")
             crealm   |-> {"same", "differs"},
-            sname    |-> {"same", "differs"},                    \* server name inside the encrypted part
+            sname    |-> {"same", "differs", "regrouped"},       \* server name inside the encrypted part
             srealm   |-> {"same", "differs"},
             tktRealm |-> {"same", "differs"},
             addrs    |-> {"same", "none", "subset", "extra", "otherOnly"},   \* relative to the addresses of the request (same = echoed)
-            times    |-> {"inside", "authBeyond", "startBeyond", "bothBeyond"},
+            times    |-> {"inside", "authBeyond", "startBeyond", "bothBeyond",
+                          "startAbsent",                         \* the OPTIONAL starttime left out (it then is the authtime), authtime inside
+                          "startAbsentAuthBeyond",               \* left out, and the authtime beyond the skew
+                          "authZero"},                           \* authtime 0001-01-01 00:00:00 (what an unset time value encodes to)
             key      |-> {"right", "other"},
             usage    |-> {"right", "other"},
             msgType  |-> {"right", "swapped"},
@@ -32,10 +35,10 @@ AddrAS(q, p) == q.reqAddrs = "some" => p.addrs = "same"
 AddrTGS(q, p) == p.addrs \in {"none", "same", "subset"}
 AcceptAS(q, p) == /\ Decrypts(p) /\ p.nonce = "same" /\ p.cname = "same" /\ p.crealm = "same"
                   /\ p.sname = "same" /\ p.srealm = "same" /\ AddrAS(q, p)
-                  /\ p.times \notin {"authBeyond", "bothBeyond"}                 \* KDC time (authtime) within the skew
+                  /\ p.times \notin {"authBeyond", "bothBeyond", "startAbsentAuthBeyond", "authZero"}   \* KDC time (authtime) within the skew
 AcceptTGS(q, p) == /\ Decrypts(p) /\ p.nonce = "same" /\ p.cname = "same" /\ (q.level = "client" => p.crealm = "same")
                    /\ p.tktRealm = "same" /\ p.srealm = "same" /\ AddrTGS(q, p)
-                   /\ p.times # "bothBeyond"                                     \* starttime or authtime within the skew
+                   /\ p.times \notin {"bothBeyond", "startAbsentAuthBeyond"}       \* starttime (the authtime when left out) or authtime within the skew
 Accept(q, p) == IF q.kind = "AS" THEN AcceptAS(q, p) ELSE AcceptTGS(q, p)
 \* fields whose alteration the statement does not constrain for this kind of request (either outcome is acceptable)
 \* kind "TGSREF" is a TGS exchange whose (perturbed) reply is a referral to another realm: the same conditions apply to it
